@@ -5,6 +5,10 @@ import sys
 
 
 def main():
+    import warnings
+
+    # replays create coroutine objects of the real async functions without driving them (no native driver): not worth a warning
+    warnings.filterwarnings("ignore", message="coroutine .* was never awaited", category=RuntimeWarning)
     ap = argparse.ArgumentParser()
     ap.add_argument("pid")
     ap.add_argument("rest", nargs="*")
